@@ -376,12 +376,21 @@ fn run_check(id: &str, args: &Args) -> i32 {
         "C03" => run_spec(checks::c03(&args.tier, model::Flavor::Sync), args, t0),
         "C04" => run_spec(checks::c04(&args.tier, model::Flavor::Sync), args, t0),
         "C05" => run_spec(checks::c05(&args.tier, model::Flavor::Sync), args, t0),
-        "C09" => run_spec(checks::c09(&args.tier, model::Flavor::Sync), args, t0),
+        "C09" => {
+            let a = spec_outcome(checks::c09(&args.tier, model::Flavor::Sync), args, t0, args.secs * 2 / 3);
+            // every insert variant also exists on the async flavour (separate entry points)
+            let mut b = spec_outcome(checks::c09(&args.tier, model::Flavor::Async), args, t0, args.secs / 3);
+            b.property = "C09-async".into();
+            finish(merge("C09", vec![a, b], t0))
+        }
         "C16" => {
             let a = spec_outcome(checks::c16(&args.tier, model::Flavor::Sync), args, t0, args.secs);
             let agg = comp::run_cases("C16", "c16-types", comp::c16_type_cases(), comp::c16_type_case, args.threads.min(8));
             let b = comp_outcome("C16-value-types", args, agg, "value types u64, [u8;32], String, (), Vec<u64> x ignore_internal_cost x cost {0,1,5}: insert, update with another explicit cost, update with cost 0 (coster = 7), quiescence between the writes, charge read through the facade; expected (cost or coster) + size_of::<StoreItem<V>>() unless ignored", t0, &[]);
-            finish(merge("C16", vec![a, b], t0))
+            // the same histories on the async flavour (its sweep and processor are separate code)
+            let mut c = spec_outcome(checks::c16(&args.tier, model::Flavor::Async), args, t0, args.secs);
+            c.property = "C16-async".into();
+            finish(merge("C16", vec![a, b, c], t0))
         }
         other => {
             eprintln!("unknown check {}", other);
